@@ -1,7 +1,7 @@
 #!/bin/bash
 # selftest/run_seeded.sh <seeded id> [property ...]: apply seeded/<id>/patch.diff to /repo, run the quick
 # checks of the given properties (default: the property the change was written for), undo the change.
-id=$1; shift; props=${@:-$id}
+id=$1; shift; props=${@:-${id%%-*}}
 cd /repo || exit 9
 if ! git apply --check /verif/seeded/$id/patch.diff 2>/dev/null; then
   if [ -f /verif/seeded/$id/patch.rebased.diff ] && git apply --check /verif/seeded/$id/patch.rebased.diff; then
